@@ -122,7 +122,7 @@ def rebuild(real, model):
     (boxes are matched by ident = repr)."""
     by_ident = {}
     for b in real.boxes:
-        by_ident.setdefault(repr(b), b)
+        by_ident.setdefault("%s|%r|%r" % (repr(b), M.atoms_of(b.dom), M.atoms_of(b.cod)), b)
     boxes = [by_ident[b[0]] for b in model[1]]
     from discopy import monoidal
     # the scanning constructor, then the class-preserving upgrade (type(real) may be Id or Box,
